@@ -43,6 +43,7 @@ class _B:
         self.resumable = True
         self.n_msgs = 0
         self.n_pause = 0
+        self.allow_pause = False  # in-plan Msg('pause'); switched on by cases() for the profiles that expect it
 
     def group(self):
         self.gid += 1
@@ -103,7 +104,7 @@ class _B:
     def misc(self, key):
         r = self.runs[key]
         opts = ["null", "sleep", "checkpoint"]
-        if self.profile in ("general", "lifecycle", "nonresumable", "replay", "suspend") and self.n_pause < 2:
+        if self.allow_pause and self.n_pause < 2:
             opts += ["pause"]
         if self.profile == "replay_data":
             opts += ["monitor", "flyer", "subscribe", "configure", "stage_pair"]
@@ -336,6 +337,7 @@ def cases(profile="general"):
     @st.composite
     def gen(draw):
         b = _B(draw, st, profile)
+        b.allow_pause = profile in ("general", "lifecycle", "nonresumable", "replay", "suspend")
         plan = b.plan()
         case = {"name": "gen:" + profile, "plan": plan, "devices": copy.deepcopy(DEVICES), "probe": True}
         if profile in ("replay", "replay_data"):
